@@ -11,11 +11,13 @@
 mod alloc;
 mod crumb;
 mod explore;
+mod hostile;
 mod prop;
 mod props;
 mod report;
 mod rsm;
 mod run;
+mod targets;
 mod vnet;
 
 use prop::Prop;
@@ -213,7 +215,8 @@ fn replay(path: &str, json: bool) -> i32 {
         .filter(|v| v.class == rf.violation.class)
         .collect();
     if json {
-        println!("{}", serde_json::to_string(&ctx.violations).unwrap());
+        // (library code may print to stdout: mark our line)
+        println!("\nGDVERIF-JSON:{}", serde_json::to_string(&ctx.violations).unwrap());
     } else {
         println!(
             "replayed property={} case={} ({}) choices={:?}",
@@ -377,7 +380,10 @@ fn driver(p: &'static dyn Prop, tier: Tier) -> i32 {
                 match crumb::read(&crumb_path) {
                     Some((case, choices, oversize)) => {
                         let class = match oversize {
-                            Some(n) => format!("process-death:oversize-allocation>1GiB ({n} bytes requested)"),
+                            Some(_) => format!(
+                                "process-death:oversize-allocation>1GiB:{}",
+                                p.case_label(tier, case).split([' ', '\'']).next().unwrap_or("")
+                            ),
                             None => format!("process-death:{why}"),
                         };
                         deaths.push(Violation {
@@ -386,7 +392,10 @@ fn driver(p: &'static dyn Prop, tier: Tier) -> i32 {
                             case,
                             case_label: p.case_label(tier, case),
                             choices: choices.clone(),
-                            detail: format!("worker process died while running this execution: {why}"),
+                            detail: format!(
+                                "worker process died while running this execution: {why}{}",
+                                oversize.map(|n| format!(" (a single allocation of {n} bytes was requested)")).unwrap_or_default()
+                            ),
                             observed: why.clone(),
                             expected: "the query returns Ok or Err".into(),
                             wire: vec![],
@@ -525,7 +534,9 @@ fn driver(p: &'static dyn Prop, tier: Tier) -> i32 {
                 match o {
                     Ok(o) => {
                         // compare what was observed: the set of (class, observed) pairs
-                        let vs: Vec<Violation> = serde_json::from_slice(&o.stdout).unwrap_or_default();
+                        let text = String::from_utf8_lossy(&o.stdout).to_string();
+                        let line = text.lines().find_map(|l| l.strip_prefix("GDVERIF-JSON:")).unwrap_or("[]");
+                        let vs: Vec<Violation> = serde_json::from_str(line).unwrap_or_default();
                         let mut obs: Vec<(String, String)> = vs.into_iter().map(|v| (v.class, v.observed)).collect();
                         obs.sort();
                         outs.push((o.status.code(), format!("{obs:?}")))
